@@ -127,6 +127,7 @@ let () =
   let spec = ref (c_init Z0 N0) in
   let admit = ref true in
   let diverged = ref false in
+  let dnl_ambiguous = ref false in
   let last_model_s = ref "" and last_impl_s = ref "" in
   let quiescent = ref false in
   let last_tick = ref 0 in
@@ -136,10 +137,14 @@ let () =
   let stat k = Hashtbl.replace stats k (1 + (try Hashtbl.find stats k with Not_found -> 0)) in
   let pending_find : (name * bool * bool * csent list) option ref = ref None in
   let pending_int : (int * name * bool * bool * int * csent list * int list) option ref = ref None in
+  let contains s sub = (try ignore (Str.search_forward (Str.regexp_string sub) s 0); true with Not_found -> false) in
   let diverge what =
     if not !diverged then begin
       diverged := true;
-      Printf.printf "DIVERGE %s %d %s\n" !case !gen what
+      (* after an ambiguous sweep a difference in the dead nonce list is the unmodelled tie order, not a disagreement *)
+      if !dnl_ambiguous && (contains what "dnl model=" || contains what "dnlq model=" || contains what "kind 1" || contains what "model drops (kind 1)")
+      then stat "dnl_tie_difference_observed"
+      else Printf.printf "DIVERGE %s %d %s\n" !case !gen what
     end in
   let oracle pid sg detail = Printf.printf "ORACLE %s %s %d %s %s\n" pid !case !gen sg detail in
   let apply o = let (s', r) = step !model o in model := s'; r in
@@ -193,7 +198,7 @@ let () =
       let line = input_line stdin in
       incr lineno;
       match String.split_on_char ' ' line with
-      | "case" :: k :: _ -> case := k; gen := 0; incr ncases; diverged := false; quiescent := false; Hashtbl.reset deadline;
+      | "case" :: k :: _ -> case := k; gen := 0; incr ncases; diverged := false; dnl_ambiguous := false; quiescent := false; Hashtbl.reset deadline;
           last_model_s := ""; last_impl_s := ""; pending_find := None; pending_int := None
       | "gen" :: _ -> incr gen
       | ["op"; "init"; t0; c; sv; ad; life] ->
@@ -319,6 +324,13 @@ let () =
           ignore (apply OTick); last_tick := nowi (); last_op := "tick";
           if List.length (!model).heap < nb then stat "tick_reaping" else stat "tick_idle"
       | ["op"; "dnl"] -> incr nops;
+          (* more than 100 records due and the 100th and 101st have the same expiry: which ones RemoveExpiredEntries pops is
+             decided by container/heap's tie order, which the model does not reproduce; sizes still agree, contents may not,
+             so model/implementation comparison stops for this history (the spec oracles go on) *)
+          (let due = List.filter (fun x -> int_of_z (snd x) < nowi ()) (!model).dnlq in
+           let pr = List.sort compare (List.map (fun x -> int_of_z (snd x)) due) in
+           if List.length pr > 100 && List.nth pr 99 = List.nth pr 100 && not !dnl_ambiguous then begin
+             stat "dnl_tie_ambiguous_history"; dnl_ambiguous := true end);
           let nb = List.length (!model).dnl in
           ignore (apply ODnl); last_op := "dnl";
           let d = nb - List.length (!model).dnl in
